@@ -9,10 +9,13 @@
    method), any number of parameters: Request.encode succeeds without overlap warning
    and Request.decode of the result returns exactly the encoded values -- stated about
    the model's real entry points encode_msg / decode_msg.
-   NOT PROVED (correspondence + oracle only): parameter trees with structures, fields,
-   dynamic-length types, explicit or bit positions (see DESIGN.md, "partial"). *)
+   ... AND FOR NESTED STRUCTURES (C01_nested_message_roundtrip): the same for parameter trees
+   in which a VALUE parameter may be a STRUCTURE of such parameters, to any nesting depth
+   (side condition: the model's fuel suffices, a computable inequality).
+   NOT PROVED (correspondence + oracle only): fields, dynamic-length types, explicit or bit
+   positions, BYTE-SIZE, length keys (see DESIGN.md, "partial"). *)
 From Coq Require Import ZArith List Bool.
-From OV Require Import Base.Bytes Base.Wire Generated Model.Str Model.Codec Proofs.BytesProofs Proofs.AtomicProofs Proofs.CodecProps Proofs.FlatProofs.
+From OV Require Import Base.Bytes Base.Wire Generated Model.Str Model.Codec Proofs.BytesProofs Proofs.AtomicProofs Proofs.CodecProps Proofs.FlatProofs Proofs.TreeProofs.
 Import ListNotations.
 Open Scope Z_scope.
 
@@ -103,3 +106,32 @@ Theorem C01_flat_example :
   static_bits_msg (map mkp fl) = Some 96.
 Proof. exact flat_example. Qed.
 Print Assumptions C01_flat_example.
+
+(* message level with nesting: every parameter is a standard-length CODED-CONST / VALUE parameter or
+   a STRUCTURE of such parameters, recursively; the caller passes nested dictionaries of the VALUE
+   parameters (in_dict), the decoder returns nested dictionaries of all parameters (out_dict) *)
+Theorem C01_nested_message_roundtrip : forall ts d,
+  (forall t, In t ts -> (depth t <= d)%nat /\ wf t) ->
+  NoDup (map (fun t => m_name (t_member t)) ts) ->
+  let ms := map t_member ts in
+  let ps := map m_p ms in
+  (3 * d + 3 <= fuel_of ps)%nat ->
+  exists msg,
+    encode_msg ps None (VDict (in_dict ms)) = Ok (msg, false) /\
+    decode_msg ps msg = Ok (VDict (out_dict ms)).
+Proof. exact tree_message_roundtrip. Qed.
+Print Assumptions C01_nested_message_roundtrip.
+
+Theorem C01_nested_example :
+  let u8 nm := mkF nm 8 BUint None true BUint None in
+  let ts := [FLeaf (mkF [115] 8 BUint None true BUint (Some (VInt 34))) (VInt 34);
+             FNode [111] [FLeaf (u8 [97]) (VInt 1);
+                          FNode [105] [FLeaf (mkF [98] 12 BUint None false BUint None) (VInt 2748); FLeaf (u8 [99]) (VInt 3)]];
+             FLeaf (u8 [122]) (VInt 255)] in
+  let ms := map t_member ts in
+  let ps := map m_p ms in
+  encode_msg ps None (VDict (in_dict ms)) = Ok ([34; 1; 188; 10; 3; 255], false) /\
+  decode_msg ps [34; 1; 188; 10; 3; 255] = Ok (VDict (out_dict ms)) /\
+  (3 * 2 + 3 <= fuel_of ps)%nat.
+Proof. exact tree_example. Qed.
+Print Assumptions C01_nested_example.
